@@ -45,7 +45,7 @@ ASSUMPTIONS = [
     "hostile absolute paths and traversals stay inside the scratch area (the harness must not touch the real file system)",
     "allowed resource directories: <repo>/pdfminer/cmap and the directory named by CMAP_PATH",
 ]
-PROBES = ["site:encoding-name", "site:cmapname-stream", "site:usecmap", "site:registry-ordering", "site:image-name", "site:image-attr", "name:dotdot", "name:absolute", "name:nul", "name:long", "name:existing-file", "name:separator", "name:sibling-prefix", "name:lookalike", "state:outdir-absent", "state:outdir-nested", "state:preexisting-image-name", "second export in the same process", "image exported", "bait file present at traversal target"]
+PROBES = ["site:encoding-name", "site:cmapname-stream", "site:usecmap", "site:registry-ordering", "site:image-name", "site:image-attr", "name:dotdot", "name:absolute", "name:nul", "name:long", "name:existing-file", "name:separator", "name:sibling-prefix", "name:lookalike", "state:CMAP_PATH unset", "state:outdir-absent", "state:outdir-nested", "state:preexisting-image-name", "second export in the same process", "image exported", "bait file present at traversal target"]
 TIERS = {
     "quick": {"batches": 16, "runs": 500, "budget_s": 45},
     "thorough": {"batches": 128, "runs": 500, "budget_s": 900},
@@ -258,13 +258,16 @@ def candidate_targets(scratch_top, sim_cmap_dir, outdir, names):
     return sorted(p for p in out if os.path.isabs(p) and p.startswith(top + os.sep))
 
 
-def child(data, fsroot, sim_cmap_dir, outdir, mode, twice, scratch_top):
+def child(data, fsroot, sim_cmap_dir, outdir, mode, twice, scratch_top, cmap_env=True):
     """Runs in the forked child: returns the audit events and the exception class, if any.
 
     twice: export a second time in the same process; between the two exports files appear in the output directory
     under the names the second export would choose next (somebody else wrote them)."""
     os.chdir(os.path.join(fsroot, "work"))
-    os.environ["CMAP_PATH"] = sim_cmap_dir
+    if cmap_env:
+        os.environ["CMAP_PATH"] = sim_cmap_dir
+    else:
+        os.environ.pop("CMAP_PATH", None)  # the default configuration: no extra CMap directory
     seams.FSMON.start()
     err = None
     try:
@@ -340,7 +343,8 @@ def run(tape, ctx, item=None):
             try:
                 os.makedirs(_guard(scratch_top, os.path.dirname(p)), exist_ok=True)
                 with open(_guard(scratch_top, p), "wb") as f:
-                    f.write(BAIT_PICKLE if p.endswith(".gz") else b"pre-existing content of " + os.path.basename(p).encode()[:40])
+                    # (some of them empty: a zero-length file is a file like any other)
+                    f.write(BAIT_PICKLE if p.endswith(".gz") else b"" if t.coin(30, 100, "state.preexist.empty") else b"pre-existing content of " + os.path.basename(p).encode()[:40])
             except OSError:
                 pre.remove(p)  # e.g. a 300-byte name: the file system cannot hold it
         # intermediate directories that make traversals resolvable, and bait files at their targets
@@ -367,21 +371,35 @@ def run(tape, ctx, item=None):
                 nbait += 1
             except OSError:
                 pass
+        # the working directory is not a resource directory either: bait pickles under the plain names lie there
+        for site, nm in names:
+            s0 = nm.replace(b"\x00", b"").decode("latin-1")
+            if site != "image-name" and s0 and "/" not in s0 and "\\" not in s0 and len(s0) < 100 and s0 not in (".", ".."):
+                for fn in ("%s.pickle.gz" % s0, "to-unicode-%s-Identity.pickle.gz" % s0, "to-unicode-Adobe-%s.pickle.gz" % s0, "to-unicode-Adobe-Identity.pickle.gz"):
+                    try:
+                        with open(_guard(scratch_top, os.path.join(fsroot, "work", fn)), "wb") as f:
+                            f.write(BAIT_PICKLE)
+                        nbait += 1
+                    except OSError:
+                        pass
         if nbait:
             ctx.probe("bait file present at traversal target", nbait)
+        cmap_env = t.coin(75, 100, "state.cmapenv")
+        if not cmap_env:
+            ctx.probe("state:CMAP_PATH unset")
         before = snapshot(scratch_top)
         mode = t.pick(["text", "xml", "html"], "mode")
         twice = t.coin(30, 100, "twice")
         if twice:
             ctx.probe("second export in the same process")
-        res = core.fork_call(lambda: child(data, fsroot, sim_cmap_dir, outdir, mode, twice, scratch_top), timeout=60)
+        res = core.fork_call(lambda: child(data, fsroot, sim_cmap_dir, outdir, mode, twice, scratch_top, cmap_env), timeout=60)
         if "error" in res:
             raise core.HarnessError("C15 child failed: %s" % res["error"])
         after = snapshot(scratch_top)
         top_b = scratch_top.encode()
         shown = [(sname, nm.replace(top_b, b"<SCRATCH>")) for sname, nm in names]
-        cfg = "names=%r outdir=%s(%s) mode=%s" % (shown, os.path.relpath(outdir, fsroot), st, mode)
-        allowed_read = (CMAPDIR + os.sep, os.path.realpath(sim_cmap_dir) + os.sep)
+        cfg = "names=%r outdir=%s(%s) mode=%s%s" % (shown, os.path.relpath(outdir, fsroot), st, mode, "" if cmap_env else " CMAP_PATH=unset")
+        allowed_read = (CMAPDIR + os.sep, os.path.realpath(sim_cmap_dir) + os.sep) if cmap_env else (CMAPDIR + os.sep, "/usr/share/pdfminer/")
         out_real = os.path.realpath(outdir)
         for ev in res["events"]:
             if ev[0] == "open":
